@@ -37,10 +37,18 @@ ASSUME = ['harness edits always change mtime and happen between commands only',
 
 
 def main(tier):
+    import random
+    from .. import common, faults
     n, budget = (240, 60) if tier == 'quick' else (6000, 780)
-    return histcheck.run(PROP, tier, CASE, histcheck.seeds_for(PROP, tier, n), 'exploration', RULE, ASSUME, budget, floor=20)
+    common.ensure_built()
+    fn, its, cov = faults.layer(PROP, tier, random.Random(common.seed()))
+    return histcheck.run(PROP, tier, CASE, histcheck.seeds_for(PROP, tier, n), 'exploration', RULE + faults.LAYER_RULE % faults.LAYER_JUDGED[PROP], ASSUME, budget, floor=20,
+                         layers=[(fn, its, cov, 40 if tier == 'quick' else 600)])
 
 
 def replay(path):
+    from .. import faults
+    if faults.is_fault_replay(path):
+        return faults.replay(PROP, path)
     from ..replay import replay_history
     return replay_history(PROP, path, {'stale'})
